@@ -123,3 +123,43 @@ func TestDebugE04(t *testing.T) {
 	}
 	fmt.Println("violating schedules:", found)
 }
+
+// TestDebugI04 drives the hand-written "pod-IP sync read the old incarnation, then everything else happened" history (development aid).
+func TestDebugI04(t *testing.T) {
+	if os.Getenv("VERIF_DEBUG_I04") == "" {
+		t.Skip()
+	}
+	topo := Topo{Pools: []PoolT{{NodeSubnets: []string{"10.49.27.0/24"}, Subnet: "10.0.70.0/24", Gateway: "10.0.70.1",
+		Ranges: [][2]uint32{{0x0a004602, 0x0a004606}}}}, Nodes: []NodeT{{Name: "n0", IP: "10.49.27.3"}, {Name: "n1", IP: "10.49.27.4"}}}
+	found := 0
+	for k := 1; k <= 9; k++ {
+		var sched []int
+		for i := 0; i < k; i++ {
+			sched = append(sched, 0)
+		}
+		for i := 0; i < 80; i++ {
+			sched = append(sched, 1)
+		}
+		c := Case{Topo: topo, WLs: []WL{{Kind: "sts", Name: "s0", Policy: "", Replicas: 3}}, Lag: true,
+			Ops: []Op{{K: "create"}, {K: "synclister", A: 2}, {K: "sched", B: 63}, {K: "synclister", A: 2}, {K: "phase"}, {K: "synclister", A: 2},
+				{K: "deliver"}, {K: "deliver"}, {K: "deliver"},
+				{K: "recreate"},
+				{K: "episode", Sub: []Op{{K: "syncips"}, {K: "deliverlate"}, {K: "unbindlate"}, {K: "synclister", A: 2}, {K: "sched", B: 63}}, Sched: sched},
+				{K: "resync"}}}
+		r := &vcore.Rec{}
+		_, f := runHistory(c, r, &ObsC04{})
+		if f != nil {
+			found++
+		}
+		if f != nil && found == 1 || k == 3 {
+			fmt.Printf("==== k=%d f=%v\n", k, f != nil)
+			for _, l := range r.Trace() {
+				if len(l) > 700 {
+					l = l[:700]
+				}
+				fmt.Println(l)
+			}
+		}
+	}
+	fmt.Println("violating schedules:", found)
+}
